@@ -76,6 +76,16 @@ class StorageReplayer:
         self.issued = set()
         self.monitor = []                 # C20 monitor messages
         self.calls = 0
+        # concretisation parameter outside the model: model oid n <-> real oid n * stride (stride 65537 spreads the
+        # objects over different 6-byte prefixes, i.e. several buckets of the two-level oid index)
+        self.stride = int(self.opts.get('oid_stride', 1))
+
+    def P(self, o):
+        return p64(o * self.stride)
+
+    def U(self, oid):
+        v = u64(oid)
+        return v // self.stride if v % self.stride == 0 else ('unmapped-oid', v)
 
     # ---- lifecycle ----
     def open(self, create=True):
@@ -114,7 +124,8 @@ class StorageReplayer:
 
     def data(self, o, d):
         d = norm(d)
-        return cz.make_record(self.cls[o], d['v'], d['refs'], pad=self.opts.get('pad', 0), formats=cz.FORMATS)
+        cz.STRIDE = self.stride
+        return cz.make_record(self.cls[o], d['v'], {r * self.stride for r in d['refs']}, pad=self.opts.get('pad', 0), formats=cz.FORMATS)
 
     # ---- one action ----
     def step(self, action, args, state):
@@ -143,25 +154,25 @@ class StorageReplayer:
                 st.tpc_begin(self.t)
             elif action == 'Store':
                 c, o, serial, d = args
-                st.store(p64(o), self.tids.real(serial), self.data(o, d), '', self.t)
+                st.store(self.P(o), self.tids.real(serial), self.data(o, d), '', self.t)
             elif action == 'CheckCurrent':
                 c, o, serial = args
-                st.checkCurrentSerialInTransaction(p64(o), self.tids.real(serial), self.t)
+                st.checkCurrentSerialInTransaction(self.P(o), self.tids.real(serial), self.t)
             elif action == 'Delete':
                 c, o, serial = args
-                st.deleteObject(p64(o), self.tids.real(serial), self.t)
+                st.deleteObject(self.P(o), self.tids.real(serial), self.t)
             elif action == 'Undo':
                 c, t = args
                 r = st.undo(base64.encodebytes(self.tids.real(t)).rstrip(), self.t)
-                extra['oids'] = frozenset(u64(x) for x in r[1])
+                extra['oids'] = frozenset(self.U(x) for x in r[1])
             elif action == 'Restore':
                 c, o, d, prev = (tuple(args) + (0,))[:4]
                 d = norm(d)
                 data = None if d['v'] == ('gone',) else self.data(o, d)
-                st.restore(p64(o), self._tid_of_txn(state), data, '', self.tids.real(prev) if prev else None, self.t)
+                st.restore(self.P(o), self._tid_of_txn(state), data, '', self.tids.real(prev) if prev else None, self.t)
             elif action == 'Vote':
                 r = st.tpc_vote(self.t)
-                extra['oids'] = frozenset(u64(x) for x in (r or ()))
+                extra['oids'] = frozenset(self.U(x) for x in (r or ()))
             elif action == 'VoteFail':
                 from .. import faultfs
                 k = self.opts.get('fault_k', 0)
@@ -187,7 +198,7 @@ class StorageReplayer:
                 call = str(args[0])
                 other = self._txn()
                 if call == 'store':
-                    st.store(p64(0), z64, self.data(0, {'v': ('v1',), 'refs': frozenset()}), '', other)
+                    st.store(self.P(0), z64, self.data(0, {'v': ('v1',), 'refs': frozenset()}), '', other)
                 elif call == 'vote':
                     st.tpc_vote(other)
                 elif call == 'finish':
@@ -197,9 +208,9 @@ class StorageReplayer:
                 elif call == 'undo':
                     st.undo(base64.encodebytes(self.tids.real(self.K)).rstrip(), other)
                 elif call == 'checkCurrent':
-                    st.checkCurrentSerialInTransaction(p64(0), z64, other)
+                    st.checkCurrentSerialInTransaction(self.P(0), z64, other)
                 elif call == 'delete':
-                    st.deleteObject(p64(0), z64, other)
+                    st.deleteObject(self.P(0), z64, other)
             elif action == 'Pack':
                 sec, gc = args
                 from ZODB.serialize import referencesf
@@ -219,9 +230,11 @@ class StorageReplayer:
                 finally:
                     self.fault_hit = faultfs.S.failed
                     faultfs.S.fail_at = None
+            elif action == 'NewOid' and self.stride != 1:
+                pass
             elif action == 'NewOid':
                 oid = st.new_oid()
-                extra['oid'] = u64(oid)
+                extra['oid'] = self.U(oid)
                 self._monitor_oid(oid)
             elif action == 'CloseReopen':
                 st.close()
@@ -311,14 +324,14 @@ class StorageReplayer:
 
     def poke_oid(self, o):
         try:
-            self.st.load(p64(o), '')
+            self.st.load(self.P(o), '')
         except KeyError:
             pass
 
     def poke(self, rng):
         """Sparse mode: a single read through the storage's reader pool (what one concurrent reader does)."""
         try:
-            self.st.load(p64(rng.randrange(self.noid)), '')
+            self.st.load(self.P(rng.randrange(self.noid)), '')
         except KeyError:
             pass
 
@@ -327,13 +340,14 @@ class StorageReplayer:
         st = self.st
         T = self.tids
         mo = model_obs
+        cz.STRIDE = self.stride
         obs = {'lb': {}, 'cur': {}, 'ser': {}, 'revs': {}}
         order = [o for o in first if o in mo['lb']] + [o for o in mo['lb'] if o not in first]
         for o in order:        # current revisions first (newest records), then the walks back through history
-            r = self._q(st.load, p64(o), '')
+            r = self._q(st.load, self.P(o), '')
             obs['cur'][o] = {'k': 'keyerr'} if r is KeyError else self._rev(r[0], r[1], None)
         for o in order:
-            oid = p64(o)
+            oid = self.P(o)
             row = {}
             for t in sorted(mo['lb'][o], reverse=True):
                 r = self._q(st.loadBefore, oid, T.real(t))
@@ -350,7 +364,7 @@ class StorageReplayer:
         for txn in st.iterator():
             recs = []
             for r in txn:
-                recs.append({'oid': u64(r.oid), 'd': cz.datum_of(r.data),
+                recs.append({'oid': self.U(r.oid), 'd': cz.datum_of(r.data),
                              'dtxn': T.model(r.data_txn) if r.data_txn else 0})
                 if r.tid != txn.tid:
                     recs[-1]['tid_mismatch'] = r.tid.hex()
@@ -364,15 +378,15 @@ class StorageReplayer:
             ul = st.undoLog(0, 1000)
             obs['ulog'] = tuple(T.model(base64.decodebytes(d['id'] + b'\n')) for d in ul)
         if self.kind == 'file' and 'linv' in mo:
-            obs['linv'] = {n: tuple({'tid': T.model(t), 'oids': tuple(u64(o) for o in oids)} for t, oids in st.lastInvalidations(n))
+            obs['linv'] = {n: tuple({'tid': T.model(t), 'oids': tuple(self.U(o) for o in oids)} for t, oids in st.lastInvalidations(n))
                            for n in mo['linv']}
             ri = {}
             for o in _fn(mo['riter']):
                 try:
-                    oid, tid, data, nxt = st.record_iternext(p64(o))
-                    ri[o] = {'k': 'rev', 'd': cz.datum_of(data), 'serial': T.model(tid), 'next': u64(nxt) if nxt is not None else -1}
-                    if u64(oid) != o:
-                        ri[o]['oid'] = u64(oid)
+                    oid, tid, data, nxt = st.record_iternext(self.P(o))
+                    ri[o] = {'k': 'rev', 'd': cz.datum_of(data), 'serial': T.model(tid), 'next': self.U(nxt) if nxt is not None else -1}
+                    if self.U(oid) != o:
+                        ri[o]['oid'] = self.U(oid)
                 except KeyError:
                     ri[o] = {'k': 'keyerr'}
             obs['riter'] = ri
